@@ -55,6 +55,22 @@ def is_packet_fn(fn, fl):
         return False
 
 
+def resolver_abort_early_return(run):
+    """on_lookup's aborted completion (the resolver's timer was cancelled - by cancel(), or by the resolver's destructor, in
+    which case the completion runs after the resolver is gone) returns before touching any member (shared with C12)."""
+    fx = run.fx
+    for f in fx.fn(RES + '::on_lookup'):
+        run.touch(f)
+        # first statement: return on operation_aborted, dominating every member access
+        mem = [n for n in f.all_nodes() if n['k'] == 'member' and n.get('mk') == 'field' and q.is_this(q.access_root(n))]
+        ok = bool(mem)
+        for n in mem:
+            g = [('' if p else '!') + q.render(f, a) for a, p in q.guards_at(f, n)]
+            if not any('operation_aborted' in x and x.startswith('!') for x in g):
+                ok = False
+        run.check(ok, 'R6-ABORT', 'resolver-abort-early-return', f.name, f.loc(), 'on_lookup touches members on the aborted path', 'every member access is dominated by the operation_aborted early return')
+
+
 def accept_supersedes_both_kinds(run):
     """The acceptor has two slots for ONE kind of operation (accept into a caller's socket / accept returning a socket).
     Every public async_accept overload takes the outstanding handler out of BOTH before it stores the new one: a take
@@ -452,16 +468,7 @@ def check(run):
             run.check('operation_aborted' in txt or bool(errs), 'R6-ABORT', 'resolver-cancel-ec', f.name, f.loc(fl.node), 'cancelled lookups are not completed with operation_aborted', 'completed with operation_aborted')
         inv = [fl for fl in handlers.flows_in(fx, f) if fl.kind == 'invoke']
         run.check(not inv, 'R6-INLINE', 'resolver-cancel', f.name, f.loc(), 'cancel() invokes handlers inline', 'no inline invocation in cancel()')
-    for f in fx.fn(RES + '::on_lookup'):
-        run.touch(f)
-        # first statement: return on operation_aborted, dominating every member access
-        mem = [n for n in f.all_nodes() if n['k'] == 'member' and n.get('mk') == 'field' and q.is_this(q.access_root(n))]
-        ok = bool(mem)
-        for n in mem:
-            g = [('' if p else '!') + q.render(f, a) for a, p in q.guards_at(f, n)]
-            if not any('operation_aborted' in x and x.startswith('!') for x in g):
-                ok = False
-        run.check(ok, 'R6-ABORT', 'resolver-abort-early-return', f.name, f.loc(), 'on_lookup touches members on the aborted path', 'every member access is dominated by the operation_aborted early return')
+    resolver_abort_early_return(run)
 
     # ---- G: dangling completion context ---------------------------------
     run.clause('R15 a closure handed to post() does not capture `this` of an object whose destructor can reach that post')
